@@ -369,6 +369,33 @@ def unbalanced_genesis(hbin, scr, sd):
     return rec, len(behs)
 
 
+def removed_signer_acts(hbin, scr, sd):
+    """A signer decides and whitelists successfully, governance then removes it from the signer list (in one variant the
+    proposal is rolled back and it stays), a new order is raised and the former signer accepts it and whitelists again:
+    only CURRENT signers' decisions are recorded and counted (C02 / C03 / C13)."""
+    import vlib
+    g = {"accts": ["A1", "A2", "A3", "A4"], "bal": {a: {"nund": 100, "other": 100} for a in ("A1", "A2", "A3", "A4")},
+         "ent": {"signers": ["A1", "A2"], "min": 1, "limit": 30, "denom": "nund", "wl": ["A3"], "startId": 1},
+         "wrk": {"feeReg": 24, "feeRec": 2, "feePur": 3, "denom": "nund", "def": 2, "max": 4, "startId": 1},
+         "bcn": {"feeReg": 20, "feeRec": 1, "feePur": 5, "denom": "nund", "def": 2, "max": 4, "startId": 1},
+         "str": {"feeNum": 1, "feeDen": 100}}
+    BB, EB, CM = {"a": "BeginBlock", "dt": 1000}, {"a": "EndBlock"}, {"a": "Commit"}
+    tx = lambda *m: {"a": "DeliverTx", "msgs": list(m)}
+    behs = []
+    for failing in (False, True):
+        msgs = [{"t": "UpdParams", "mod": "ent", "authority": "gov", "p": {"signers": ["A2"], "min": 1, "limit": 30, "denom": "nund"}}]
+        if failing:
+            msgs.append({"t": "Send", "from": "gov", "to": "A1", "amt": 5, "denom": "nund"})
+        b = [{"a": "InitChain", "g": g}, BB, tx({"t": "Raise", "pur": "A3", "amt": 9, "denom": "nund"}), tx({"t": "Decide", "signer": "A1", "id": 1, "d": "accept"}),
+             tx({"t": "Whitelist", "signer": "A1", "addr": "A4", "act": "add"}), EB, CM] + [BB, EB, CM] * 2
+        b += [BB, tx({"t": "GovProp", "proposer": "V", "msgs": msgs}, {"t": "Vote", "voter": "V", "id": 1}), EB, CM] + [BB, EB, CM] * 3
+        b += [BB, tx({"t": "Raise", "pur": "A3", "amt": 7, "denom": "nund"}), tx({"t": "Decide", "signer": "A1", "id": 2, "d": "accept"}),
+              tx({"t": "Whitelist", "signer": "A1", "addr": "A2", "act": "add"}), tx({"t": "Raise", "pur": "A2", "amt": 3, "denom": "nund"}), EB, CM] + [BB, EB, CM] * 3
+        behs.append(b)
+    rec, _ = vlib.record_behaviours(hbin, behs, scr, name="removed-signer-acts")
+    return rec, len(behs)
+
+
 def extreme_amounts(hbin, scr, sd):
     """C14 'extreme amounts': purchase orders of 2^62 ... 2^200 nund (decimal strings; far beyond TLC's integers) raised,
     accepted, minted and locked, partly unlocked by registry fees, with an export/import at the end.  The genesis is
@@ -682,20 +709,20 @@ def c18_custom(pid, tier, plan, scr, hbin, specdir):
 
 
 PLANS = {
-    "C03": dict(mc=both(ENT_MC, ENT_GHOST), extra={"quick": [decision_patterns, signer_list_anomalies], "thorough": [decision_patterns, signer_list_anomalies]}, sim=ENT_SIM, random=rnd("ent", (300, 3), (2000, 20)),
+    "C03": dict(mc=both(ENT_MC, ENT_GHOST), extra={"quick": [decision_patterns, signer_list_anomalies, removed_signer_acts], "thorough": [decision_patterns, signer_list_anomalies, removed_signer_acts]}, sim=ENT_SIM, random=rnd("ent", (300, 3), (2000, 20)),
                 rule="TLC exhaustive on MC_Ent (all interleavings of raise/decide/whitelist/gov param change/time advance in small scope); behaviours = TLC-simulated schedules + seeded random histories executed on the real app; non-trivial = a recorded step (one ABCI call) validated against Chain!Step and all C03 monitors",
                 assumptions=COMMON_ASSUME),
     "C04": dict(ledger=True, mc=both(FEE_MC, ENT_MC), extra={"quick": [unbalanced_genesis], "thorough": [unbalanced_genesis]}, sim=both(FEE_SIM, ENT_SIM), sweep=FEE_SWEEP, random=rnd("ent", (300, 3), (2000, 20)),
                 rule="TLC exhaustive on MC_Fee (orders completing, then fee-paying registry txs with every relation of locked/liquid to the fee, exact/higher/missing/multi-denomination fees, bad signatures, k-th message failing, sends to escrow); view = locked/spent books, totals, escrow balance, registered module invariant", assumptions=COMMON_ASSUME),
     "C05": dict(ledger=True, mc=both(FEE_MC, FEE_GRANT), sim=FEE_SIM, sweep=FEE_SWEEP, random=both(rnd("ent", (300, 4), (2000, 20)), rnd("mix", (200, 2), (1500, 10))),
                 rule="as C04 plus vesting purchasers in the random histories; monitors: locked drops only by min(fee, locked) in a registry tx of the payer and equals the spent increase; completion never raises spendable", assumptions=COMMON_ASSUME),
-    "C02": dict(ledger=True, mc=both(FEE_MC, ENT_MC), extra={"quick": [decision_patterns, signer_list_anomalies], "thorough": [decision_patterns, signer_list_anomalies]}, sim=both(FEE_SIM, ENT_SIM), sweep=both(FEE_SWEEP, AUTH_SWEEP), random=rnd("mix", (400, 3), (2500, 20)),
+    "C02": dict(ledger=True, mc=both(FEE_MC, ENT_MC), extra={"quick": [decision_patterns, signer_list_anomalies, removed_signer_acts], "thorough": [decision_patterns, signer_list_anomalies, removed_signer_acts]}, sim=both(FEE_SIM, ENT_SIM), sweep=both(FEE_SWEEP, AUTH_SWEEP), random=rnd("mix", (400, 3), (2500, 20)),
                 rule="supply and sum of ALL balances (iteration incl. unmodelled accounts) after every step of mixed histories; mint/burn events of every ABCI response equal the supply delta; supply changes only in BeginBlock by the completed orders' amounts", assumptions=COMMON_ASSUME),
-    "C13": dict(mc=both(REG_MC, STR_MC, ENT_MC, GRP_MC, FEE_GRANT), sweep=AUTH_SWEEP, random=rnd("mix", (300, 2), (1500, 10)),
+    "C13": dict(mc=both(REG_MC, STR_MC, ENT_MC, GRP_MC, FEE_GRANT), extra={"quick": [removed_signer_acts], "thorough": [removed_signer_acts]}, sweep=AUTH_SWEEP, random=rnd("mix", (300, 2), (1500, 10)),
                 rule="TLC breadth-first sweep MC_Auth: every message type x every account as signer x every account as named address in three encodings (foreign key, proper signature, Exec wrapper) from a prepared state; each behaviour replayed on the real app; state digest before/after compared", assumptions=COMMON_ASSUME),
     "C14": dict(mc=both(FEE_MC, ENT_MC, ENT_GHOST), extra={"quick": [extreme_amounts], "thorough": [extreme_amounts]}, sim=both(FEE_SIM, ENT_SIM), sweep=both(FEE_SWEEP, PAR_SWEEP, AUTH_SWEEP), random=rnd("mix", (400, 3), (2500, 20)),
                 rule="begin/end block and commit wrapped in recover (a panic is the observation halted); failed and panicking txs compared on the full projection (only ante effects may remain); multi-message txs with the k-th message failing; extreme amounts (orders of 2^62 ... 2^200 nund as decimal strings, minted, locked, partly unlocked, exported and imported) judged by Trace!ExtremeJudge: no begin/end blocker or commit panics, failed transactions and read-only calls leave every module store byte-identical", assumptions=COMMON_ASSUME),
-    "C16": dict(mc=both(ENT_GHOST, REG_GHOST, STR_GHOST, REG_DEEP), sweep=PAR_SWEEP, sim=ENT_SIM, random=rnd("mix", (300, 2), (1500, 10)),
+    "C16": dict(mc=both(ENT_GHOST, REG_GHOST, STR_GHOST, REG_DEEP), extra={"quick": [removed_signer_acts, signer_list_anomalies], "thorough": [removed_signer_acts, signer_list_anomalies]}, sweep=PAR_SWEEP, sim=ENT_SIM, random=rnd("mix", (300, 2), (1500, 10)),
                 rule="TLC breadth-first sweep MC_Par: parameter structures with each field at/inside/outside its bounds through a real governance proposal, followed by probes of every dependent rule; stored parameters re-validated against the stated rules in every observed state", assumptions=COMMON_ASSUME),
     "C17": dict(mc=FEE_MC, extra={"quick": [many_denominations], "thorough": [many_denominations]}, sim=FEE_SIM, sweep=FEE_SWEEP, random=rnd("mix", (300, 3), (2000, 15)),
                 rule="at every block boundary of the corpus the enterprise supply queries (SupplyOf every denomination, EnterpriseSupply, TotalUnlocked, TotalSupply with every page size in key and offset mode) are recorded and checked against bank supply and total locked of the same state", assumptions=COMMON_ASSUME),
